@@ -486,8 +486,7 @@ def rule_trim(ctx, rep):
 
 
 def run(ctx, rep):
-    rep.not_decided += ["that accepted literals denote the right mathematical value (base conversion, underscores, unit sums, field order) - value computation",
-                        "e.g. observed but not decidable structurally: fractions of d/h/m are scaled to microseconds instead of seconds"]
+    rep.not_decided += ["that accepted literals denote the right mathematical value (base conversion, underscores, unit sums, field order) - value computation, except the scale agreement decided by R-C09-scale"]
     rep.assumptions += ["python's sre parser reads the same regex subset as regex-syntax for the two address patterns (literals, classes, groups, ?, *)",
                         "FIELD_BOUNDS (femptos < 10^15) is maintained by rule R-C04-bound"]
     rule_cast(ctx, rep)
@@ -496,6 +495,8 @@ def run(ctx, rep):
     rule_addr(ctx, rep)
     rule_fallible(ctx, rep)
     rule_trim(ctx, rep)
+    from rules import c09_scale
+    c09_scale.run(ctx, rep)
     # arithmetic/panicking constructors on literal paths are shared with C04 (R-C04-panic): report the literal subset here too
     from rules.c04 import ENTRIES, entry_bodies
     from rules.panic_triage import TRIAGE
